@@ -13,6 +13,7 @@ package vsched
 
 import (
 	"fmt"
+	"os"
 	"runtime"
 	"strconv"
 	"strings"
@@ -610,4 +611,37 @@ func ReplayOne(r *vreport.Report, cfg Config, prefix []PrefixEntry) *Exec {
 		r.Cap("replay diverged: " + x.Diverged)
 	}
 	return x
+}
+
+// FreeRun executes the scenario's threads as ordinary goroutines under the Go scheduler, with no controlled
+// execution active (every shim passes straight through), then runs Check and Cleanup. It exists for the separate
+// race-detector pass: under the cooperative scheduler every hand-off is a happens-before edge that blinds the
+// detector, so the same harness bodies are also run free in a binary built with -race.
+func FreeRun(sc Scenario) map[string]string {
+	done := make(chan struct{}, len(sc.Threads))
+	for _, th := range sc.Threads {
+		th := th
+		go func() {
+			defer func() { done <- struct{}{} }()
+			th()
+		}()
+	}
+	for range sc.Threads {
+		<-done
+	}
+	var viol map[string]string
+	if sc.Check != nil {
+		viol = sc.Check(&Exec{})
+	}
+	if sc.Cleanup != nil {
+		sc.Cleanup()
+	}
+	return viol
+}
+
+// FreeRuns returns how many free-running repetitions per scenario the environment asks for (0 = controlled exploration).
+func FreeRuns() int {
+	n := 0
+	_, _ = fmt.Sscanf(os.Getenv("VERIF_FREERUN"), "%d", &n)
+	return n
 }
